@@ -656,6 +656,12 @@ func (obj *SparseFloat64Matrix) UnmarshalJSON(data []byte) error {
   if len(r.Index) != len(r.Value) {
     return fmt.Errorf("invalid sparse vector")
   }
+  if r.Rows < 0 || r.Cols < 0 {
+    return fmt.Errorf("invalid sparse matrix: negative dimension")
+  }
+  if err := checkSparseIndices(r.Index, r.Rows*r.Cols); err != nil {
+    return err
+  }
   obj.values = NewSparseFloat64Vector(r.Index, r.Value, r.Rows*r.Cols)
   obj.rows = r.Rows
   obj.rowMax = r.Rows
